@@ -258,17 +258,45 @@ func checkC08(r *evid.Run) {
 		if f.nroots == 1 {
 			routes = append(routes, "root")
 		}
+		type rm struct {
+			route   string
+			massive bool
+		}
+		var rms []rm
 		for _, route := range routes {
+			rms = append(rms, rm{route, false}, rm{route, true})
+		}
+		for _, x := range rms {
+			route, massive := x.route, x.massive
 			s2 := *s
 			s2.Hist = append([]fsCall{}, s.Hist...)
 			s2.Hist[len(s2.Hist)-1].Route = route
-			o, err := runFsCall(pool, &s2, c, false, s.N%2 == 1)
+			o, err := runFsCall(pool, &s2, c, massive, s.N%2 == 1)
 			if err != nil {
 				r.Broken("jail: %v", err)
 				return
 			}
 			r.Count("real_calls", 1)
 			name := fmt.Sprintf("verify-%s/strict=%v", route, call.Strict)
+			if massive {
+				// the massive option: the same verdict; with one root also the same lists (with several, WHICH differing
+				// root is reported is the schedule's choice)
+				name += "/massive"
+				if o.rp.Class == "panic" || o.rp.Class == "hang" {
+					r.Mismatch(name+":"+o.rp.Class, callString(s, c)+": "+o.rp.Err, rec(&s2, c, o, true, ""))
+					continue
+				}
+				if d := diffSnap(o.before, o.after); d != "" {
+					r.Mismatch(name+":changes-the-filesystem", callString(s, c)+": "+d, rec(&s2, c, o, true, d))
+				}
+				if (s.Res.K == "ok") != (o.rp.Class == "ok") && s.Res.K != "" && (s.Res.K == "ok" || s.Res.K == "diff" || s.Res.K == "oserr") {
+					r.Mismatch(name+":verdict-differs", fmt.Sprintf("%s: expected %s, massive mode returned %q", callString(s, c), s.Res.K, o.rp.Err), rec(&s2, c, o, true, ""))
+					continue
+				}
+				if f.nroots != 1 {
+					continue
+				}
+			}
 			if o.rp.Class == "panic" || o.rp.Class == "hang" {
 				r.Mismatch(name+":"+o.rp.Class, callString(s, c)+": "+o.rp.Err, rec(&s2, c, o, false, ""))
 				continue
